@@ -27,7 +27,8 @@ impl From<std::io::Error> for DecodeError { #[verifier::external_body] fn from(e
            ensures=[C("byte", "old(input)@.len() >= 1 ==> res is Ok && res->Ok_0 == old(input)@[0] && final(input)@ == old(input)@.skip(1)", "C12"),
                     C("short", "old(input)@.len() == 0 ==> res is Err", "C12")]),
         Fn(O, "decode", impl="OpCode", home="C12", implicit_props=("C09", "C12"), sig_subst=[("decode<T: std::io::Read>(input: &mut T)", "decode(input: &mut &[u8])")],
-           rewrites=[("SUBALL", r"\|input: &mut T\|", "|input: &mut &[u8]|"), ("SUBALL", r"\bu16::from_be_bytes\(", "u16_from_be_bytes("), ("SUBALL", r"\bu8::from_be_bytes\(", "u8_from_be_bytes(")],
+           rewrites=[("SUBALL", r"\|input: &mut T\|", "|input: &mut &[u8]|"), ("SUBALL", r"\bu16::from_be_bytes\(", "u16_from_be_bytes("), ("SUBALL", r"\bu8::from_be_bytes\(", "u8_from_be_bytes("),
+                     ("SUBALL", r"\bu16::from_le_bytes\(", "u16_from_le_bytes("), ("SUBALL", r"\bu16::from_ne_bytes\(", "u16_from_ne_bytes(")],
            closures=[Closure(0, "input: &mut &[u8]", "(r: Result<u16, DecodeError>)", ensures=[
                          C("u16arg", "old(input)@.len() >= 2 ==> r is Ok && r->Ok_0 == u16of(old(input)@[0], old(input)@[1]) && final(input)@ == old(input)@.skip(2)", "C12"),
                          C("u16short", "old(input)@.len() < 2 ==> r is Err", "C12")]),
@@ -42,7 +43,7 @@ impl From<std::io::Error> for DecodeError { #[verifier::external_body] fn from(e
            ensures=[C("k", "match spec_decode1(old(input)@) { Some((op, n)) => res == Ok::<OpCode, DecodeError>(op) && n <= old(input)@.len() && final(input)@ == old(input)@.skip(n as int), None => res is Err }", "C12",
                       note="the decoder computes the defined wire format: Ok exactly on the strings that start with one well-formed instruction (canonical PushIC only), consuming exactly that instruction")]),
         Fn(O, "encode", impl="OpCode", home="C12", implicit_props=("C09", "C12"),
-           rewrites=[("SUBALL", r"\.to_be_bytes\(\)", ".to_be_bytes_v()"), ("SUBALL", r"bytes_repr\.iter\(\)\.take_while\(\|i\| \*\*i == 0\)\.count\(\)", "count_leading_zero_bytes(&bytes_repr)")],
+           rewrites=[("SUBALL", r"\.to_be_bytes\(\)", ".to_be_bytes_v()"), ("SUBALL", r"\.to_le_bytes\(\)", ".to_le_bytes_v()"), ("SUBALL", r"bytes_repr\.iter\(\)\.take_while\(\|i\| \*\*i == 0\)\.count\(\)", "count_leading_zero_bytes(&bytes_repr)")],
            injects=[Inject(("after_let", "leading_zeros"), "proof { broadcast use axiom_u256_range, axiom_be; assert(bytes_repr@.len() == 32); lemma_lead0_bound(bytes_repr@); }")],
            ensures=[C("k", "match spec_encode1(*self) { Some(e) => res is Ok && final(output)@ == old(output)@ + e, None => res is Err && final(output)@ == old(output)@ }", "C12",
                       note="the encoder appends exactly the defined encoding; the only failure is a PushB literal longer than 255 bytes, which writes nothing")]),
